@@ -429,6 +429,11 @@ pub fn run_c14(cfg: &BatchCfg, corpus_size: usize, pristine_sample: usize) -> i3
     }
     lines.push(format!("timing: pristine table {:.1}s", t_table.elapsed().as_secs_f64()));
     let t_phase = std::time::Instant::now();
+    if let Some(i) = expected.iter().position(|e| e.starts_with(UNWIND_MARK)) {
+        let detail = format!("call {}: {}", serde_json::to_string(&calls[i]).unwrap_or_default(), expected[i]);
+        let ok = report_violation(&mut lines, cfg.seed, 400_000 + i as u64, &single_call_case(&calls[i], &expected[i]), "H6-unwinding", &detail);
+        return fail(&lines, if ok { 1 } else { 2 });
+    }
     // second history: all calls in ONE other process (fresh interpreters and a fresh thread per
     // call, reverse order); it must agree with the pristine table
     match child_reference(&calls, "ref") {
@@ -537,7 +542,7 @@ pub fn run_c14(cfg: &BatchCfg, corpus_size: usize, pristine_sample: usize) -> i3
     // plus the ambiguity-annotation paths (English "o", French "neuf"), which keep per-call scratch state
     for (lang, text) in [(1usize, "o nine sixty o six twelve twenty-one and o"), (3, "le logement neuf, un neuf virgule neuf et le vingt neuf")] {
         for concrete in [false, true] {
-            let c = Call { lang, concrete, op: Op::Rewrite { text: text.to_string(), thr: "0".into() }, crash_at: 0, reenter: 0 };
+            let c = Call { lang, concrete, op: Op::Rewrite { text: text.to_string(), thr: "0".into() }, crash_at: 0, reenter: 0, during_unwind: false };
             if let Ok(exe) = std::env::current_exe() {
                 if let Ok((r, None)) = call_in_child(&exe, &serde_json::to_string(&c).unwrap_or_default(), "C", "UTC") {
                     soak_c.push(c);
